@@ -22,13 +22,19 @@ def clean (s : String) : String := String.ofList (s.toList.map fun c => if c = '
 
 def runGlif (inp obs : List String) : Verdict :=
   let kind := inp.getD 1 ""
-  let x := (field inp "x").getD (if kind = "glifdata" then "testdata" else "plain")
+  let x := (field inp "x").getD (if kind = "glifdata" then "testdata" else if kind = "mutglif" then "mutated" else "plain")
+  let mc := (field obs "mc").getD "none"
+  let sem := (field obs "sem").getD "-"
+  -- a meaning-preserving mutation (attribute order, quotes, blanks, comments between elements, number
+  -- spellings, element order, prolog) must neither change the parsed glyph nor make the file unacceptable
+  let semSpec := if sem = "0" then ["mutation-changed-value:" ++ clean mc]
+                 else if sem = "rejected" then ["mutation-rejected:" ++ clean mc] else []
   let f := (field inp "f").getD "-"
   let p1 := (field obs "p1").getD "?"
   let tags := [kind, "glif-f" ++ f, "x-" ++ x] ++ (if p1 = "ok" then ["nt"] else ["rejected"])
   if p1 = "err" || p1 = "missing" then
     -- not accepted: outside the property; generated documents are all meant to be legal
-    { agree := kind = "glifdata", tags := tags, model := "accepted" }
+    { agree := kind = "glifdata" || kind = "mutglif", spec := semSpec, tags := tags ++ (mc.splitOn "+").map ("mut-" ++ ·), model := "accepted" }
   else if p1 = "panic" then { agree := false, spec := ["glif-panic:" ++ x], tags := tags, model := "accepted" }
   else
     let a := (field obs "a").getD "?"
@@ -42,11 +48,17 @@ def runGlif (inp obs : List String) : Verdict :=
        else (if fmt ≠ "2" then ["glif-format:" ++ x] else []) ++
             (if p2 ≠ "ok" then ["glif-not-reloadable:" ++ x] else if fix ≠ "1" then ["glif-fixed-point:" ++ x] else []))
     -- the model of this level is the expectation itself: accepted, unaltered, writable, format 2, fixed point
-    { agree := true, spec := spec, tags := tags, model := "ok" }
+    { agree := true, spec := spec ++ semSpec,
+      tags := tags ++ (if kind = "mutglif" then (mc.splitOn "+").map ("mut-" ++ ·) else []), model := "ok" }
 
 def run (inp obs : List String) : Verdict :=
   let kind := inp.getD 1 ""
-  if kind = "glif" || kind = "glifdata" then runGlif inp obs else
+  if kind = "glif" || kind = "glifdata" || kind = "mutglif" then runGlif inp obs else
+  let mc := (field obs "mc").getD "none"
+  let sem := (field obs "sem").getD "-"
+  let semSpec := if sem = "0" then ["mutation-changed-value:" ++ clean mc]
+                 else if sem = "rejected" then ["mutation-rejected:" ++ clean mc] else []
+  let mutTags := if kind = "mutufo" then (mc.splitOn "+").map ("mut-" ++ ·) else []
   let first := obs.takeWhile (· ≠ "|")
   let second := (obs.dropWhile (· ≠ "|")).drop 1
   let ver := (field inp "v").getD "t"
@@ -56,8 +68,8 @@ def run (inp obs : List String) : Verdict :=
   else if l1 ≠ "ok" then
     -- not accepted: outside the property (testdata holds deliberately broken trees; generated trees must load)
     -- legacy trees may be refused by the kerning-group upconversion (overlapping groups after renaming: C15)
-    { agree := kind = "testdata" || (ver ≠ "3" && l1 = "err:GroupsUpconversionFailure"),
-      tags := baseTags ++ ["rejected"], model := "accepted" }
+    { agree := kind = "testdata" || kind = "mutufo" || (ver ≠ "3" && l1 = "err:GroupsUpconversionFailure"),
+      spec := semSpec, tags := baseTags ++ ["rejected"] ++ mutTags, model := "accepted" }
   else
     let pre := (field first "pre").getD ""
     let l1toks := first.filter isFontTok
@@ -73,14 +85,16 @@ def run (inp obs : List String) : Verdict :=
       if kind = "ufo" && ver = "3" then
         match parseFont (inp.filter isFontTok) pre, parseFont l1toks pre with
         | some want, some got =>
-          (specFont want got pre pre true).map fun r => "accepted-altered:" ++ clean r
+          ((specFont want got pre pre true) ++
+            (if want.creator = got.creator && want.minor = got.minor then [] else ["metainfo"])).map
+            fun r => "accepted-altered:" ++ clean r
         | _, _ => ["accepted-altered:shape"]
       else []
     let objKey := match parseFont l1toks pre with
       | some f => (lookupKV objectLibsKey f.lib).isSome
       | none => false
     let spec0 := v.spec.map fun r => if r = "save-failed" && objKey then "save-failed:objectlibs-key-kept" else r
-    { agree := v.agree, spec := dedup (spec0 ++ extra ++ altered),
-      tags := baseTags ++ v.tags.filter (fun t => !t.startsWith "opt-"), model := v.model }
+    { agree := v.agree, spec := dedup (spec0 ++ extra ++ altered ++ semSpec),
+      tags := baseTags ++ mutTags ++ v.tags.filter (fun t => !t.startsWith "opt-"), model := v.model }
 
 end Driver.C04
